@@ -39,6 +39,29 @@ CHECKS = {
             "gap8 reference re-uses plinio's gap8 formula (only the plumbing of effective sizes is "
             "checked for it); relative tolerance 1e-4.",
             "DESIGN.md 4/C04"),
+    'C08': ("Hypothesis-generated networks with adversarial real mask-parameter vectors + exhaustive "
+            "fully-pruned/open sweep for kernel sizes 1..12; validity oracle on summary/export/forward",
+            "Generated-input search: every mask parameter (also of frozen maskers) is drawn from an "
+            "adversarial real set (0, +-tiny, +-0.49/0.5/0.51, +-1e30, +-3.4e38, arbitrary float32) or "
+            "set uniformly; the oracle is a validity predicate (>=1 feature, >=1 tap, dilation>=1, "
+            "frozen groups at full width per an independent width-group analysis, export succeeds, "
+            "exported net runs and returns the original output shape, sizes equal summary()). The "
+            "all-pruned/open/single-element-pruned combinations are enumerated exhaustively for "
+            "K=1..12 x stride x dilation x padding.",
+            "NaN/inf excluded (not reals); frozen-ness decided by the harness' reference analysis of "
+            "the NetSpec.",
+            "DESIGN.md 4/C08"),
+    'C09': ("Hypothesis-generated DAGs and channel masks; reference alive-feature propagation over the "
+            "NetSpec vs calculators, summary, charged features, exported widths and observed signal",
+            "Generated-input search over DAG-heavy networks (add, 2..3-way concat of searchable/"
+            "fixed/input tensors, time concat, flatten/squeeze, depthwise, stand-alone BN, repeated "
+            "layers) with exclusion by name, by type, or import mode; the oracle is an independent "
+            "boolean alive-mask propagation compared element-wise with what each converted layer "
+            "reports, is charged for and is exported with, plus a dynamic cross-check of which "
+            "channels actually carry signal and a forward pass of the exported network.",
+            "Reference propagation written from the property statement; dynamic cross-check skipped "
+            "in nets with stand-alone BN (zeros become constants by design).",
+            "DESIGN.md 4/C09"),
 }
 
 NOT_YET = "check not built yet in this session; planned with property-based testing per DESIGN.md section 4"
